@@ -239,6 +239,21 @@ def garbage_elem(space, tag='garbage'):
     return NElem(space, NA(a, space.dt))
 
 
+class BoolElem(object):
+    """A boolean-valued element (result of a comparison ufunc)."""
+
+    def __init__(self, space, data):
+        self.space, self.data = space, data
+
+    def invert(self, out=None):
+        r = NA(_np.frompyfunc(lambda v: not bool(v), 1, 1)(self.data.a),
+               self.data.dt)
+        if out is None:
+            return BoolElem(self.space, r)
+        out.data = r
+        return out
+
+
 class NotAnElement(Exception):
     """An evaluated call produced something that is not a space element."""
 
@@ -416,6 +431,14 @@ class SMHooks(NAHooks, OpHooks):
     # ---- attribute protocol --------------------------------------------------------
     def on_getattr(self, interp, obj, name):
         I = interp
+        if isinstance(obj, BoolElem):
+            if name == 'ufuncs':
+                return Rec('boolufuncs', logical_not=Builtin(
+                    'logical_not', lambda out=None: obj.invert(out)))
+            if name in ('data', 'asarray'):
+                return obj.data if name == 'data' else Builtin(
+                    'asarray', lambda: obj.data)
+            raise PyRaise('AttributeError')
         if isinstance(obj, (NSpace, NPSpace)):
             r = self.space_attr(I, obj, name)
             if r is not NotImplemented:
@@ -656,6 +679,19 @@ class SMHooks(NAHooks, OpHooks):
     # dispatch machinery itself is property C17) ---------------------------
     def ufunc_attr(self, I, x, name):
         H = self
+        if name in ('less_equal', 'less', 'greater_equal', 'greater',
+                    'equal', 'not_equal') and isinstance(x, NElem):
+            cop = {'less_equal': ast.LtE, 'less': ast.Lt,
+                   'greater_equal': ast.GtE, 'greater': ast.Gt,
+                   'equal': ast.Eq, 'not_equal': ast.NotEq}[name]()
+
+            def cmp_(other, out=None):
+                if out is not None:
+                    raise Undecided('comparison ufunc with out')
+                o = other.data if isinstance(other, NElem) else other
+                r = I.cmp1(cop, x.data, o, None)
+                return BoolElem(x.space, r)
+            return Builtin('ufuncs.' + name, cmp_)
         if name in ('sum', 'prod', 'max', 'min'):
             def red(**k):
                 if k.get('axis') is not None or k.get('out') is not None:
@@ -784,6 +820,8 @@ class SMHooks(NAHooks, OpHooks):
         return NAHooks.on_binop(self, interp, op, l, r)
 
     def on_subscript(self, interp, obj, idx):
+        if isinstance(idx, BoolElem):
+            idx = idx.data
         if isinstance(obj, NPElem):
             if isinstance(idx, tuple) and idx and all(
                     isinstance(i, int) for i in idx):
@@ -977,6 +1015,10 @@ class SMHooks(NAHooks, OpHooks):
 
 
 class SMInterp(NAMixin, Interp):
+    def _na_index(self, sl, scope, func):
+        r = NAMixin._na_index(self, sl, scope, func)
+        return r.data if isinstance(r, BoolElem) else r
+
     def ev(self, n, scope, func):
         if isinstance(n, ast.Constant) and isinstance(n.value, complex):
             from fractions import Fraction as Fr
